@@ -183,6 +183,7 @@ def run_gix(ctx, binary, ws, chunk=2000):
         if "got" not in r:
             raise ToolError("executor failed outside of a check: %s" % json.dumps(r)[:300])
         res.extend(r["got"]["worlds"])
+        ctx.cov["evaluations"] += len(r["got"]["worlds"]) - 1     # one evaluation per world, not per executor case
     return res
 
 
